@@ -213,7 +213,7 @@ def r20f(ctx, rep, rule="R20f"):
 
 
 IDENTITY_CONV = re.compile(
-    r"(as std::ops::Deref>::deref$|as std::borrow::ToOwned>::to_owned$|ToOwned for str>::to_owned$|Cow<.*>::into_owned$|"
+    r"(as std::ops::Deref>::deref$|as std::borrow::ToOwned>::to_owned$|ToOwned for str>::to_owned$|Cow<.*>::into_owned$|Cow::<.*>::into_owned$|Cow::<.*>::to_mut$|"
     r"as std::clone::Clone>::clone$|as std::string::ToString>::to_string$|as std::convert::(From|Into)<.*>>::(from|into)$|"
     r"as std::convert::AsRef<str>>::as_ref$|as std::borrow::Borrow<str>>::borrow$|std::string::String::as_str$|"
     r"marwood_wasm::HighlightResult::new$|as std::ops::Drop>::drop$|std::mem::drop$|std::string::String::len$|str>::len$)")
